@@ -147,6 +147,7 @@ uint8_t* ll_realloc(uint8_t* p, uint64_t n) { return realloc(p, n); }
 uint32_t ll_memcmp(uint8_t* a, uint8_t* b, uint64_t n) { return (uint32_t)memcmp(a, b, n); }
 uint32_t ll_bcmp(uint8_t* a, uint8_t* b, uint64_t n) { return (uint32_t)memcmp(a, b, n); }
 uint64_t ll_strlen(uint8_t* a) { return strlen((char*)a); }
+uint64_t ll_strnlen(uint8_t* a, uint64_t n) { uint64_t i = 0; while (i < n && a[i]) i++; return i; }
 uint32_t ll_strcmp(uint8_t* a, uint8_t* b) { return (uint32_t)strcmp((char*)a, (char*)b); }
 void ll___assert_fail(uint8_t* a, uint8_t* f, uint32_t l, uint8_t* fn) {
 #ifdef __CPROVER__
